@@ -14,6 +14,7 @@ import (
 	"time"
 	"unicode/utf8"
 
+	"github.com/thought-machine/please/src/cli"
 	"github.com/thought-machine/please/src/core"
 	"github.com/thought-machine/please/src/parse/asp"
 	"pgregory.net/rapid"
@@ -51,6 +52,7 @@ var (
 
 func parser() *asp.Parser {
 	parserOnce.Do(func() {
+		cli.InitLogging(1) // errors only: parseFileInput logs a stack trace at debug level for every rejected input
 		theParser = asp.NewParser(core.NewDefaultBuildState())
 		scratchDir = os.Getenv("VERIF_SCRATCH")
 		if scratchDir == "" {
@@ -169,9 +171,9 @@ func run(c Case, o *lib.Obs) error {
 }
 
 func gen(t *rapid.T) Case {
-	maxDepth := 2000
+	maxDepth, maxLen := 2000, 16000
 	if lib.Thorough() {
-		maxDepth = maxInput
+		maxDepth, maxLen = maxInput, 60000
 	}
 	var c Case
 	switch k := rapid.IntRange(0, 99).Draw(t, "mode"); {
@@ -179,13 +181,13 @@ func gen(t *rapid.T) Case {
 		c = Case{Data: genSoup(t), Mode: "soup"}
 	case k < 50:
 		c = Case{Data: genLiterals(t), Mode: "literals"}
-	case k < 94:
+	case k < 96:
 		d, _ := genMutated(t, genProgramTokens(t))
 		c = Case{Data: d, Mode: "mutated"}
-	case k < 98:
+	case k < 99:
 		c = Case{Data: genStress(t, maxDepth), Mode: "stress"}
 	default:
-		c = Case{Data: genLongLine(t), Mode: "long"}
+		c = Case{Data: genLongLine(t, maxLen), Mode: "long"}
 	}
 	if len(c.Data) > maxInput {
 		c.Data = c.Data[:maxInput]
